@@ -160,6 +160,9 @@ def gen_scenario(rng, sid, pf):
         if cands:
             crowd_type = rng.choice(cands)
             types[crowd_type]["naming"] = True
+            # not a runner: more than 12 participants are sorted by pdqsort, whose order among equal keys the model
+            # (a stable sort; DESIGN 0.6) does not reproduce
+            types[crowd_type]["runner"] = None
     for ti, t in enumerate(types):
         ninst = 1
         if t.get("bare"):
